@@ -30,6 +30,11 @@ AB_SP = {'a': (('tok', 'A'), [Term('A', (('str', 'a', ''),))]),
          'c': (('tok', 'SB', ), [Term('SB', (('str', ' b', ''),))])}      # starts with the ignored character (issue #768)
 AB_SP['d'] = (('tok', 'SX'), [Term('SX', (('str', ' ', ''), ('str', 'b', '')))])    # can match the ignored character itself
 
+IG_A = Term('IGA', (('str', ' ', ''),))
+IG_B = Term('IGB', (('str', ' a', ''),))         # second ignored terminal: same start, longer
+AB = {'a': (('tok', 'A'), [Term('A', (('str', 'a', ''),))]), 'b': (('tok', 'B'), [Term('B', (('str', 'b', ''),))])}
+NM1 = {'p': (('lit', '+'), []), 'q': (('tok', 'PLUS'), [Term('PLUS', (('str', '++', ''),))]), 'x': (('lit', 'x'), [])}
+NM2 = {'p': (('lit', 'plus'), []), 'q': (('lit', '+'), []), 'c': (('lit', ','), []), 'n': (('tok', 'COMMA'), [Term('COMMA', (('str', ';', ''),))])}
 ALL3 = ('basic', 'dynamic', 'dynamic_complete')
 DYN = ('dynamic', 'dynamic_complete')
 
@@ -57,6 +62,14 @@ def box(name):
         return B(2, 'pqrst', (2, 1), 2, render=REGS), DYN, 'ab'
     if name == 'd16':
         return B(2, 'pe', 2, 2, render=REGS), DYN, 'ab'
+    if name == 'ig2':       # two ignored terminals that match at the same offset with different lengths
+        return B(2, 'ab', (2, 1), 2, render=AB, ignore=('IGA', 'IGB'), extra_terms=(IG_A, IG_B)), DYN, 'ab '
+    if name == 'ig2r':
+        return B(2, 'ab', (2, 1), 2, render=AB, ignore=('IGB', 'IGA'), extra_terms=(IG_B, IG_A)), DYN, 'ab '
+    if name == 'nm1':       # anonymous literal whose canonical name (PLUS) belongs to a different terminal
+        return B(2, 'pqx', (2, 1), 2, render=NM1), DYN, '+x'
+    if name == 'nm2':       # keyword literal "plus" auto-named PLUS, then "+"; "," next to a user terminal COMMA
+        return B(2, 'pqcn', (2, 1), 2, render=NM2), ALL3, ('plus', '+', ',', ';')
     if name == 'e1':
         return families.EBNF(1), ALL3, 'xyz'
     if name == 'e2':
@@ -68,9 +81,11 @@ def box(name):
 
 # (box, slice modulus k or 1, input length L)
 QUICK = [('a1', 1, 5), ('e1', 1, 4), ('a2', 8, 4), ('a2i', 32, 4), ('b', 64, 4), ('bi', 256, 4), ('bs', 32, 4),
-         ('d', 32, 4), ('d16', 16, 4), ('e2', 16, 3)]
+         ('d', 32, 4), ('d16', 16, 4), ('e2', 16, 3),
+         ('ig2', 16, 4), ('ig2r', 16, 4), ('nm1', 16, 4), ('nm2', 64, 3)]
 THOROUGH = [('a1', 1, 6), ('e1', 1, 5), ('a2', 1, 5), ('a2i', 2, 4), ('b', 4, 4), ('bi', 16, 4), ('bs', 2, 5),
-            ('d', 2, 4), ('d16', 1, 5), ('e2', 1, 4), ('e2i', 4, 4), ('a3', 4, 4), ('k3', 4, 5)]
+            ('d', 2, 4), ('d16', 1, 5), ('e2', 1, 4), ('e2i', 4, 4), ('a3', 4, 4), ('k3', 4, 5),
+            ('ig2', 1, 4), ('ig2r', 1, 4), ('nm1', 1, 5), ('nm2', 2, 3)]
 CHUNK = 96
 
 
